@@ -160,6 +160,17 @@ def materialize(interp, name, td, depth=0):
         ctx.register_input(name, "str", s)
         ctx.trusted.add("str: abstract strings = their UTF-8 octets; valid_utf8 is an uninterpreted predicate")
         return StrV(BytesV([Blk(s, n, name, True)], "bytes"), ops.mk(c, 0, None, 0))
+    if k == "text":
+        from . import fs_model
+        maxlen = td.args[0]
+        s = z3.Const(name, SeqSort)
+        n = z3.Int("len_" + name)
+        ctx.assume(z3.Length(s) == n)
+        ctx.assume(n >= 0)
+        if maxlen is not None:
+            ctx.assume(n <= maxlen)
+        ctx.register_input(name, "text", s)
+        return fs_model.mk_text([Blk(s, n, name, fs_model.ASCII)])
     if k == "real":
         v = z3.Real(name)
         ctx.register_input(name, "real", v)
